@@ -2,4 +2,5 @@
 # usage: kani1.sh <lane> <module::harness> [extra cargo-kani args]   (ad-hoc single run; the driver is bin/check)
 lane=$1; h=$2; shift 2
 n=${h##*::}
-cd /repo && PUMPKIN_VERIF_HARNESS=/verif/harness CARGO_NET_OFFLINE=true timeout ${KTIMEOUT:-1800} cargo kani -p pumpkin-solver --lib -Z stubbing --harness verif_kani::$h --exact --target-dir /verif/.kani-target/$lane "$@" > /tmp/k_$n.log 2>&1
+ulimit -v $((${KMEM:-20}*1024*1024))
+cd /repo && PUMPKIN_VERIF_HARNESS=/verif/harness CARGO_NET_OFFLINE=true timeout ${KTIMEOUT:-1800} cargo kani -p pumpkin-solver --lib -Z stubbing -Z unstable-options --no-memory-safety-checks --no-overflow-checks --no-assertion-reach-checks --harness verif_kani::$h --exact --target-dir /verif/.kani-target/$lane "$@" > /tmp/k_$n.log 2>&1
